@@ -298,9 +298,31 @@ func (e *allocEngine) step(i int) {
 				crs = append(crs[:k], crs[k+1:]...)
 			}
 		}
+		overlapped := false
+		if e.mon.c11 && len(crs) > 0 && r.Chance(1, 5) {
+			// one pool lists an address twice (an entry repeated as a range / a range inside its own block): the
+			// loader refuses that; should it ever accept, the counters must still count every address once
+			crs = append([]metallbv1beta1.IPAddressPool(nil), crs...)
+			k := r.Intn(len(crs))
+			cp := *crs[k].DeepCopy()
+			if m := vfModelPool(cp, e.nss); len(m.Set) > 0 {
+				iv := m.Set[r.Intn(len(m.Set))]
+				lo := vfAddrString(iv.Fam, iv.Lo)
+				hi := lo
+				if iv.Hi.Cmp(iv.Lo) > 0 && r.Bool() {
+					hi = vfAddrString(iv.Fam, new(big.Int).Add(iv.Lo, big.NewInt(1)))
+				}
+				cp.Spec.Addresses = append(cp.Spec.Addresses, lo+"-"+hi)
+				crs[k] = cp
+				overlapped = true
+			}
+		}
 		ok := e.setPools(crs)
 		e.c.Logf("%d: SetPools ok=%v %s", i, ok, vfPoolDump(crs))
 		e.c.Count("op:SetPools")
+		if overlapped {
+			e.c.Count(map[bool]string{true: "op:SetPools:pool-listing-an-address-twice-accepted", false: "op:SetPools:pool-listing-an-address-twice-refused"}[ok])
+		}
 	}
 	e.afterStep(i)
 }
